@@ -87,6 +87,45 @@ pub fn insert_line(text: &str, pos: usize, line: &str) -> Option<String> {
     Some(out)
 }
 
+/// number of single-line corruptions: the JUNK insertions plus two mutations of an existing line
+pub const N_CORRUPTIONS: usize = JUNK.len() + 2;
+
+/// Corruption `j` at line `pos`: j < JUNK.len() inserts a junk line in front of line `pos`; JUNK.len() deletes the colon of a
+/// field line (so that it is no field any more); JUNK.len()+1 removes the indentation of a continuation line (so that it is
+/// no continuation any more).  None when the corruption does not apply or would leave a well-formed line.
+pub fn corrupt(text: &str, pos: usize, j: usize) -> Option<String> {
+    if j < JUNK.len() {
+        return insert_line(text, pos, JUNK[j]);
+    }
+    let lines: Vec<&str> = text.split_inclusive('\n').collect();
+    let line = *lines.get(pos)?;
+    let body = line.strip_suffix('\n').unwrap_or(line);
+    let new_body: String = if j == JUNK.len() {
+        if body.is_empty() || body.starts_with([' ', '\t', '#']) || body.matches(':').count() != 1 {
+            return None;
+        }
+        body.replacen(':', "", 1)
+    } else {
+        let t = body.trim_start_matches([' ', '\t']);
+        if t.len() == body.len() || t.trim().is_empty() || t.contains(':') || t.starts_with('#') {
+            return None;
+        }
+        t.to_string()
+    };
+    let mut out = String::new();
+    for (i, l) in lines.iter().enumerate() {
+        if i == pos {
+            out.push_str(&new_body);
+            if l.ends_with('\n') {
+                out.push('\n');
+            }
+        } else {
+            out.push_str(l);
+        }
+    }
+    Some(out)
+}
+
 pub struct C03;
 
 pub fn read_items(d: &Deb822) -> Vec<Vec<(String, String)>> {
@@ -102,7 +141,7 @@ impl Prop for C03 {
         "exploration"
     }
     fn rule(&self, _t: Tier) -> String {
-        "documents are choice vectors over the layout slots of a PxF skeleton (P,F in 1..3): every vector with at most k deviations from the simplest layout is rendered (text + intended reading by construction) and read with the strict reader; vectors whose deviation has no effect on the text are skipped, so every evaluated document is distinct; rejection clause: every k<=1 document x every line position x 4 junk lines; field-name alphabet clause: every printable ASCII character except ':' inside a field name, and every one except '-' and '#' as its first character; non-trivial = document with at least one deviation".into()
+        "documents are choice vectors over the layout slots of a PxF skeleton (P,F in 1..3): every vector with at most k deviations from the simplest layout is rendered (text + intended reading by construction) and read with the strict reader; vectors whose deviation has no effect on the text are skipped, so every evaluated document is distinct; rejection clause: every k<=1 document x every line position x (4 inserted junk lines, the colon of a field line deleted, the indentation of a continuation line removed); field-name alphabet clause: every printable ASCII character except ':' inside a field name, and every one except '-' and '#' as its first character; non-trivial = document with at least one deviation".into()
     }
     fn bounds(&self, t: Tier) -> Value {
         let mut per = vec![];
@@ -158,8 +197,8 @@ impl Prop for C03 {
                     if let Some(d) = render(sk, v) {
                         let n = d.text.split_inclusive('\n').count();
                         for pos in 0..=n {
-                            for j in 0..JUNK.len() {
-                                if insert_line(&d.text, pos, JUNK[j]).is_some() {
+                            for j in 0..N_CORRUPTIONS {
+                                if corrupt(&d.text, pos, j).is_some() {
                                     f(&DocCase { skel: sk, v: v.to_vec(), junk: Some((pos, j)), name_char: None });
                                 }
                             }
@@ -197,7 +236,7 @@ impl Prop for C03 {
             return vec![];
         };
         if let Some((pos, j)) = c.junk {
-            let Some(text) = insert_line(&doc.text, pos, JUNK[j]) else {
+            let Some(text) = corrupt(&doc.text, pos, j) else {
                 return vec![];
             };
             st.nontrivial += 1;
@@ -278,7 +317,7 @@ impl Prop for C03 {
     fn snippet(&self, c: &DocCase, v: &Viol) -> String {
         let text = render(c.skel, &c.v).map(|d| d.text).unwrap_or_default();
         let text = match c.junk {
-            Some((pos, j)) => insert_line(&text, pos, JUNK[j]).unwrap_or(text),
+            Some((pos, j)) => corrupt(&text, pos, j).unwrap_or(text),
             None => text,
         };
         format!(
